@@ -111,7 +111,7 @@ M = {
  "C07_default_trust_level_used": ("C07", "a client configured with trust level 2/3 and a non-adjacent header signed by between 1/3 and 2/3 of the trusted set", "C07 quick (C07.AcceptedIsSound, trust-level-2/3 leg)", "missed by the first version (level 1/3 only); second leg added"),
  "C08_bsc_storage_key_suffix_match": ("C08", "a storage key shortened to a suffix of the derived slot with a genuine proof of the slot it left-pads to", "C08 quick (C08.AcceptedOnlyIfAllRight, storage class suffixkey)", "missed by the first version; class added"),
  "C09_difficulty_compared_mod_2_64": ("C09", "a difficulty wider than 64 bits whose low 64 bits are 1 or 2", "C09 quick (C09.SignerEligible)", "missed by the first version (difficulties 1 and 2 only); classes 101/102 added"),
- "C10_prune_first_expired_not_earliest": ("C10", "a fork history in which a young header is re-pointed below expired states of the other branch, trusting period elapsing in between", "none", "not caught: the Ethereum client's pruning of expired consensus states is not exercised (no clock in ETHClient.tla); recorded as a limit in DESIGN.md 9.7"),
+ "C10_prune_first_expired_not_earliest": ("C10", "a fork history in which a young header is re-pointed below expired states of the other branch, trusting period elapsing in between", "C10 quick (C10.HeadersLeaveOnlyWithPrunedState, C10.NeverWedgedWhileFresh; expiry leg)", "missed by the first version (large trusting period, no clock); expiry leg added"),
  "C11_ibc_hook_ignores_pair_switch": ("C11", "an ICS-20 packet for a registered voucher whose pair governance disabled", "C11 quick (C11.HookHonoursSwitches, ICS-20 leg)", "missed by the first version (C16 does not state the gate); ICS-20 leg of C11 added"),
  "C12_addcoin_sorts_denoms": ("C12", "AddCoin of a denomination that sorts before the pair's first one", "C12 quick (C12.Findable)", "caught at first attempt"),
  "C13_rvesting_export_newcoins": ("C13", "reward-vesting parameters with a zero amount (or unsorted / repeated denominations), then an export", "C13 quick (C13.Validates / RoundTripLossless on the reward-vesting behaviours)", "missed by the first version (reward-vesting states not round-tripped); world added"),
